@@ -1880,3 +1880,33 @@ def bound_init(f, var, at_block, dom=None):
             if best is None or len(dom.get(e.block, ())) > len(dom.get(best.block, ())) or (e.block == best.block and e.idx > best.idx):
                 best = e
     return (best.get("init") or {}) if best is not None else None
+
+
+# ---------- a guard that is told to forget its mutex ----------
+
+def guard_release_rule(ck, rule_id, scope, what, minimum_guards):
+    """Every std::unique_lock / scoped guard constructed in a function of `scope` gives its mutex back: the RAII destructor does so
+    unless the guard was told to forget the mutex with release() (which returns the mutex *still locked*).  A release() is accepted
+    only when the pointer it returns is unlocked in the same function.  Expected count of release() calls on the tree is zero; the
+    number of guards looked at is the instance count."""
+    ck.rule(rule_id, "A lockset (guards give the mutex back)",
+            "%s: no guard over them is made to forget its mutex with release() (the mutex would stay locked for ever: the next "
+            "attach, settle or write on that object blocks) unless the returned mutex is unlocked in the same function" % what, 1)
+    n = 0
+    for f in ck.prog.funcs.values():
+        if not scope(f) or not f.blocks:
+            continue
+        guards = [d for d in f.events("decl") if (d.get("ctor") or "").startswith(("std::unique_lock", "std::lock_guard", "std::scoped_lock"))]
+        n += len(guards)
+        rel = [e for e in f.events("call") if strip_tmpl(e.get("callee") or "") == "std::unique_lock::release"]
+        for e in rel:
+            # `guard.release()->unlock()` or `auto* m = guard.release(); ... m->unlock();`
+            unl = [u for u in f.events("call") if strip_tmpl(u.get("callee") or "") in ("std::mutex::unlock", "std::recursive_mutex::unlock")
+                   and (u.get("l") == e.get("l") or any(x is u for x in cfg.events_after(f, e)))]
+            ck.ob(rule_id, "%s/release@%s" % (ck.prog.owner(f).base.replace("Pistache::", ""), (e.get("recv") or {}).get("t")), bool(unl), e.loc, f,
+                  "the released mutex is unlocked by hand" if unl else
+                  "%s.release() at line %s makes the guard forget its mutex without unlocking it: the mutex stays locked after the function returns"
+                  % ((e.get("recv") or {}).get("t"), e.get("l")))
+    ck.require(n >= minimum_guards, "%s: only %d RAII guards found in scope" % (rule_id, n))
+    ck.ob(rule_id, "guards-in-scope", True, "", "", "%d RAII guards constructed in scope; every release() judged above" % n, nontrivial=False)
+    return n
